@@ -446,39 +446,67 @@ def gen_deep_history(r, depth, sat):
   return h
 
 
+_CHAIN_DATA = ("data0", "data1", "data2")   # binding data is compared by identity: always these three objects
+
+
+class _Chain:
+  """A linear CFG with one variable re-bound at every node, driven through the raw cfg API (no per-op bookkeeping)."""
+
+  def __init__(self):
+    from pytype.typegraph import cfg
+    self.p = cfg.Program()
+    self.last = self.p.NewCFGNode("n")
+    self.v = self.p.NewVariable()
+    self.ops = []
+
+  def do(self, op):
+    self.ops.append(op)
+    if op[0] == "CN":
+      self.last = self.last.ConnectNew("n")
+    elif op[0] == "NV":      # a fresh variable bound at the last node (keeps every warm-up query O(1))
+      w = self.p.NewVariable()
+      w.AddBinding(_CHAIN_DATA[0], [], self.last)
+      self.w = w
+    else:
+      self.v.AddBinding(_CHAIN_DATA[op[1]], [], self.last)
+
+  def answers(self, d):
+    b = [x for x in self.v.bindings if x.data is _CHAIN_DATA[d]]
+    return (b[0].IsVisible(self.last) if b else None,
+            tuple(sorted(x.data for x in self.v.Filter(self.last))))
+
+  def n_solvers(self):
+    return len(self.p.calculate_metrics().solver_metrics)
+
+
 def generations_leg(n_gen, n_final):
   """One long-lived Program through `n_gen` solver generations (mutation, query, mutation, query, ...) - more than any
   fixed-size history buffer - then `n_final` rounds of query / answer-changing mutation / same query, each compared
   with a replica rebuilt from scratch.  Also monitors that every mutation after a query starts a new solver
-  generation (solver-metrics count).  Returns (stale list, generations expected, generations observed, history)."""
-  real = Real()
-  h = []
-  def op(x):
-    real.do(x); h.append(("op", x))
-  op(("NewNode", None)); op(("NewVariable",))
-  last = 0
+  generation (solver-metrics count); the warm-up stops as soon as that monitor fails.
+  Returns (stale list, generations expected, generations observed, op list)."""
+  c = _Chain()
   expected_gen = 0
   for i in range(n_gen):
-    op(("ConnectNew", last, None)); last = len(real.nodes) - 1
-    op(("AddBindingAt", 0, i % 3, [], last))
-    real.ask(("Filter", last, 0))                 # a solver is alive now
+    c.do(("CN",)); c.do(("NV",))
+    c.w.Filter(c.last)                            # a solver is alive now
     expected_gen += 1
-  observed_gen = real.n_solvers()
+    if i % 64 == 63 and c.n_solvers() + 1 < expected_gen:
+      break
+  observed_gen = c.n_solvers() + 1                # the live solver is not in the metrics yet
   stale = []
   for j in range(n_final):
-    op(("ConnectNew", last, None)); last = len(real.nodes) - 1
-    op(("AddBindingAt", 0, j % 3, [], last))
-    ba = [i for i, b in enumerate(real.binds) if b.data == real.d(j % 3)][0]
-    qs = [("Vis", last, [ba]), ("Filter", last, 0)]
-    for q in qs:
-      real.ask(q)
-    op(("AddBindingAt", 0, (j + 1) % 3, [], last))   # changes what is visible at `last`
-    ops_only = [x for k, x in h if k == "op"]
-    for q in qs:
-      a, b = real.ask(q), replica_answer(ops_only, q)
-      if a != b:
-        stale.append((list(h), q, a, b))
-  return stale, expected_gen, observed_gen, h
+    c.do(("CN",)); c.do(("AB", j % 3))
+    c.answers(j % 3)
+    c.do(("AB", (j + 1) % 3))                     # changes what is visible at the last node
+    got = c.answers(j % 3)
+    r = _Chain()
+    for op in c.ops:
+      r.do(op)
+    want = r.answers(j % 3)
+    if got != want:
+      stale.append((list(c.ops), ("visible/filter of data%d at the last node" % (j % 3)), got, want))
+  return stale, expected_gen, observed_gen, c.ops
 
 
 def replica_answer(ops, q):
@@ -722,8 +750,10 @@ def run(res):
     res.violation("stale-answer-after-many-generations",
                   f"after {n_gen} solver generations on one program: query {q} answered {a} by the long-lived program "
                   f"but {b} by a freshly built replica",
-                  {"history": hist, "query": q, "long_lived": a, "replica": b,
-                   "note": "history = [kind, x] entries; only the 'op' entries were executed (queries of the warm-up are ('Filter', node, 0) after every AddBindingAt)"})
+                  {"chain_ops": hist[-40:], "n_ops": len(hist), "query": q, "long_lived": a, "replica": b,
+                   "note": "linear chain: ('CN',) = last = last.ConnectNew(); ('AB', d) = v.AddBinding('data<d>', [], last); "
+                           "v.Filter(last) after every AddBinding of the warm-up; only the last 40 ops are listed, the "
+                           "warm-up op sequence is CN, NV repeated (NV = fresh variable bound at the last node, then Filter)"})
   res.obligation("oracle:long-lived==replica at every query", n_stale == 0, f"{n_stale} stale answers")
   # (b) model correspondence
   model, errors = model_cases(cases)
